@@ -101,7 +101,7 @@ def analyze_ufl_objects(
     elements += ufl.algorithms.analysis.extract_sub_elements(elements)
 
     # Sort elements so sub-elements come before mixed elements
-    unique_elements = ufl.algorithms.sort_elements(set(elements))
+    unique_elements = ufl.algorithms.sort_elements(list(dict.fromkeys(elements)))
     unique_coordinate_element_list = sorted(set(coordinate_elements), key=lambda x: repr(x))
 
     for e in unique_elements:
